@@ -326,6 +326,16 @@ pub fn configs(tier: Tier, seed: u64) -> Vec<Cfg> {
             }
         }
     }
+    // more peers than the 4 initial picks: the rest is asked in the end-game round
+    for n in [5usize, 6, 8] {
+        for last in [Beh::Answers, Beh::Silent] {
+            let mut peers = vec![Beh::Answers; n];
+            peers[n - 1] = last.clone();
+            for announce in [false, true] {
+                out.push(Cfg { peers: peers.clone(), chain: 0, chain_end: Beh::Answers, announce, send_fail: None, send_answer: 0, via_router: false, poke_ms: None, rng_seed: seed });
+            }
+        }
+    }
     // unrelated events during the search; nodes that only know routers (never "Bootstrapped", no refresh timer)
     for via_router in [false, true] {
         for poke in [10u64, 700, 1_499, 1_500, 1_501, 2_000, 2_990] {
